@@ -228,6 +228,40 @@ func c18Body(w *W) {
 			c.check(f)
 		}
 	}
+	// F7: decimals of every significant-digit count 1..17 (arithmetic lattice of mantissas
+	// per length) x exponents -30..30
+	w.Note("F7: for every digit count L = 1..17: mantissas 10^(L-1) + i*stride (up to 3000 per L, all 9*10^(L-1) for L <= 4) x decimal exponents -30..30, converted to the nearest double")
+	c.name = "F7-digit-lengths"
+	for L := 1; L <= 17; L++ {
+		lo := uint64(1)
+		for i := 1; i < L; i++ {
+			lo *= 10
+		}
+		span := lo * 9
+		n := uint64(3000)
+		if span < n {
+			n = span
+		}
+		stride := span / n
+		if stride == 0 {
+			stride = 1
+		}
+		for i := uint64(0); i < n; i++ {
+			w.res.States++
+			if !w.Mine() || w.Expired() {
+				continue
+			}
+			m := lo + i*stride + (i*7919)%stride
+			ms := strconv.FormatUint(m, 10)
+			for e := -30; e <= 30; e++ {
+				f, err := strconv.ParseFloat(ms+"e"+strconv.Itoa(e), 64)
+				if err == nil {
+					c.check(f)
+					c.check(-f)
+				}
+			}
+		}
+	}
 	// F4: powers of ten and two with neighbours; single-bit subnormals
 	w.Note("F4: 10^e for e in -323..308 and 2^e for every exponent, each with 4 neighbours on both sides; every subnormal with one or two mantissa bits")
 	c.name = "F4-powers"
